@@ -5,10 +5,12 @@ from tradingenv.transmitter import Transmitter
 from tradingenv.contracts import ETF
 
 
-def fold_case(n, fold, with_gaps, length, reps, seed):
+def fold_case(n, fold, with_gaps, length, reps, seed, off_grid=False):
     a = ETF("AAA")
     grid = [D0 + timedelta(days=i) for i in range(n)]
-    tr = Transmitter(list(grid), {"f": [grid[fold[0]], grid[fold[1]]], "g": [grid[0], grid[-1]]})
+    # off_grid: the fold's bounds fall between grid points (e.g. midnight bounds on an intraday grid): same timesteps inside
+    fb = [grid[fold[0]] - timedelta(hours=7), grid[fold[1]] + timedelta(hours=7)] if off_grid else [grid[fold[0]], grid[fold[1]]]
+    tr = Transmitter(list(grid), {"f": fb, "g": [grid[0], grid[-1]]})
     bearing = [g for i, g in enumerate(grid) if not (with_gaps and i % 3 == 1)]
     for g in bearing:
         tr.add_events([EventNBBO(g, a, 10, 10)])
@@ -128,6 +130,10 @@ def folds(tier, seed):
                 for length in [None] + list(range(2, size + 2)):
                     reps = 200 if (length is not None and length <= size and (tier != "quick" or length in (2, 3, size))) else 3
                     p = fold_case(n, fold, gaps, length, reps, seed)
+                    if not p and (length is None or length in (2, size, size + 1)):
+                        p = fold_case(n, fold, gaps, length, min(reps, 30), seed, off_grid=True)
+                        if p:
+                            p["fold_bounds"] = "between grid points"
                     acc.case(("fold", n, fold, gaps, length), sample={"n": n, "fold": list(fold), "gaps": gaps, "length": length}
                              if (n, fold, gaps, length) == (10, (2, 7), True, 3) else None)
                     acc.validated += reps
@@ -165,7 +171,8 @@ def rerun(inp):
         p = sequence_case(inp["n"], inp["gaps"], inp["markov"], ORDERS[inp["order"]], inp["seed"])
         return {"reproduced": bool(p), "failing": p}
     if inp["case"] == "fold":
-        p = fold_case(inp["n"], tuple(inp["fold"]), inp["gaps"], inp["length"], inp["reps"], inp["seed"])
+        p = fold_case(inp["n"], tuple(inp["fold"]), inp["gaps"], inp["length"], inp["reps"], inp["seed"]) or \
+            fold_case(inp["n"], tuple(inp["fold"]), inp["gaps"], inp["length"], min(inp["reps"], 30), inp["seed"], off_grid=True)
     else:
         p = wf_case(inp["n"], inp["train"], inp["test"], inp["sliding"])
     return {"reproduced": bool(p), "failing": p}
